@@ -53,6 +53,7 @@ func init() {
 			{ID: "C16-R29", Title: "three-way results are -1, 0 or 1", Floor: 10, Run: threeWayResultsAreMinusOneZeroOrOne},
 			{ID: "C16-R30", Title: "read-only operations do not write the container", Floor: 20, Run: readOnlyOperationsDoNotWriteTheContainer},
 			{ID: "C16-R31", Title: "iterators read the container at every step", Floor: 5, Run: iteratorsReadTheContainerAtEveryStep},
+			{ID: "C16-R32", Title: "derived operands are derived last", Floor: 1, Run: derivedOperandsAreDerivedLast},
 		},
 	})
 }
